@@ -92,10 +92,10 @@ func (g *SketchGen) maxKey() int {
 
 // SketchMatrix is the replay configuration matrix of a check.
 type SketchMatrix struct {
-	Mappings [][]MappingSpec // each entry: mapping per mapping token
-	Reals    []string        // real store types to use for exact-kind stores
-	Aspects  map[string]bool
-	Modes    []string
+	Mappings    [][]MappingSpec // each entry: mapping per mapping token
+	Reals       []string        // real store types to use for exact-kind stores
+	Aspects     map[string]bool
+	Modes       []string
 	MidKeysOnly bool // only key embeddings around 1.0 (values must stay inside both mappings' ranges after scaling)
 }
 
@@ -134,7 +134,8 @@ func sketchConfigsFor(g *SketchGen, mx *SketchMatrix, thorough bool) []SketchCfg
 		if mx.MidKeysOnly {
 			var mid []keyEmbedding
 			for _, ke := range kes {
-				if ke.Base > -2000 && ke.Base < 2000 {
+				lo, hi := conc.m.Value(ke.idx(0)), conc.m.Value(ke.idx(g.maxKey()))
+				if ke.Base > -2000 && ke.Base < 2000 && lo > 1e-100 && hi < 1e100 {
 					mid = append(mid, ke)
 				}
 			}
